@@ -224,6 +224,13 @@ func c09Templates() []c09Tpl {
 		{"repeat-string-huge", `len("x" * 1099511627776)`, "", 0, 0},
 		{"repeat-array-huge", `len([1] * 1099511627776)`, "", 0, 0},
 		{"range-huge", `len(0:1099511627776)`, "", 0, 0},
+		// length x count wraps around 2^64 to a small number
+		{"repeat-wrap-array-4", `len([1, 2, 3, 4] * (1 << 62))`, "mem", 100, 3000},
+		{"repeat-wrap-array-8", `len(([0] * 8) * 2305843009213693952)`, "mem", 100, 3000},
+		{"repeat-wrap-range-16", `len((0:16) * (1 << 60))`, "mem", 100, 3000},
+		{"repeat-wrap-string-4", `len("abcd" * (1 << 62))`, "mem", 100, 3000},
+		{"repeat-wrap-string-16", `len("0123456789abcdef" * (1 << 60))`, "mem", 100, 3000},
+		{"repeat-wrap-array-2", `len([1, 2] * 9223372036854775807)`, "mem", 100, 3000},
 		{"repeat-string-big-print", `println("x" * 50000000)`, "", 0, 0},
 		{"join-big", `a = ["xxxxxxxxxxxxxxxx"] * 10000000; len(join(a, ","))`, "", 0, 0},
 		{"runes-big", `len(runes("x" * 100000000))`, "", 0, 0},
